@@ -71,7 +71,7 @@ macro_rules! abs_contract {
             let m: usize = kani::any();
             let (r, _why) = find_absolute_cutoff(&s, t, m);
             assert!(abs_ok(&s, t, m, r), "contract of find_absolute_cutoff: bounds and threshold clauses");
-            kani::cover!(r < $n, "cut inside the list");
+            kani::cover!($n == 0 || r < $n, "cut inside the list (n >= 1)");
             kani::cover!(r == $n, "no cut");
         }
     };
@@ -228,6 +228,20 @@ fn any_strategy(which: u8) -> CutoffStrategy {
         1 => CutoffStrategy::RelativeThreshold { min_ratio: any_param() },
         2 => CutoffStrategy::ScoreCliff { max_drop_ratio: any_param() },
         3 => CutoffStrategy::Elbow { sensitivity: any_param() },
+        5 => {
+            // RelativeThreshold with the ratio drawn from a table of exactly representable values: the
+            // float multiplication then has a constant operand and the instance answers in seconds (the
+            // fully symbolic ratio is variant 1, thorough tier: 5-10 min of SAT time on the multiplier)
+            let w: u8 = kani::any();
+            let r = match w % 5 {
+                0 => 0.5,
+                1 => 0.25,
+                2 => 1.0,
+                3 => 0.0,
+                _ => 0.75,
+            };
+            CutoffStrategy::RelativeThreshold { min_ratio: r }
+        }
         _ => CutoffStrategy::Combined {
             relative_threshold: any_param(),
             max_drop_ratio: any_param(),
@@ -260,7 +274,7 @@ macro_rules! dispatch {
             let (r, _why) = find_adaptive_cutoff(&s, &cfg);
             assert!(bounds_ok($n, cfg.min_results, r), "cut-off within [min(min_results,n), n]");
             let abs_called = unsafe { GHOST_ABS_CALLED };
-            if $which <= 1 && $n > cfg.min_results {
+            if ($which <= 1 || $which == 5) && $n > cfg.min_results {
                 assert!(abs_called, "threshold strategies go through find_absolute_cutoff");
                 // the list the function used: the raw scores when normalisation is off
                 let used: [f32; 8] = unsafe { GHOST_LIST };
@@ -293,6 +307,9 @@ dispatch!(dispatch_combined_n3_raw, 3, 4, false);
 dispatch!(dispatch_absolute_n3_norm, 3, 0, true);
 dispatch!(dispatch_relative_n3_norm, 3, 1, true);
 dispatch!(dispatch_combined_n3_norm, 3, 4, true);
+dispatch!(dispatch_relative_table_n3_raw, 3, 5, false);
+dispatch!(dispatch_relative_table_n3_norm, 3, 5, true);
+dispatch!(dispatch_relative_table_n5_raw, 5, 5, false);
 dispatch!(dispatch_absolute_n1_raw, 1, 0, false);
 dispatch!(dispatch_relative_n2_raw, 2, 1, false);
 dispatch!(dispatch_absolute_n5_raw, 5, 0, false);
@@ -345,17 +362,43 @@ macro_rules! normalize_range {
 normalize_range!(normalize_range_n1, 1);
 normalize_range!(normalize_range_n2, 2);
 
-macro_rules! normalize_range_solver {
-    ($name:ident, $n:expr, $solver:ident) => {
+// Scores drawn from a table of extreme / boundary f32 values (bounded: exhaustive over the table, every
+// combination of N entries).  The fully symbolic instance above does not answer for N >= 2 (f64 division);
+// this one keeps the clause "normalized scores lie in [0,1], maximum mapped to 1" under a deciding
+// obligation for the inputs where it is known to be at risk (range overflow, ties, denormals, signs).
+fn table_score() -> f32 {
+    let w: u8 = kani::any();
+    match w % 12 {
+        0 => 3.0e38,
+        1 => -3.0e38,
+        2 => f32::MAX,
+        3 => f32::MIN,
+        4 => 0.0,
+        5 => 1.0,
+        6 => -1.0,
+        7 => f32::MIN_POSITIVE,
+        8 => 1.0e-45,
+        9 => 0.1,
+        10 => 16777216.0,
+        _ => 16777217.0,
+    }
+}
+
+macro_rules! normalize_table {
+    ($name:ident, $n:expr) => {
         #[kani::proof]
         #[kani::unwind(6)]
-        #[kani::solver($solver)]
         fn $name() {
-            let s = any_scores::<$n>();
+            let mut s = [0.0f32; $n];
+            let mut i = 0;
+            while i < $n {
+                s[i] = table_score();
+                i += 1;
+            }
             let v = normalize_scores(&s);
             assert!(v.len() == $n, "same length");
-            let mut i = 0;
             let mut max_i = 0;
+            i = 0;
             while i < $n {
                 if s[i] > s[max_i] {
                     max_i = i;
@@ -368,8 +411,9 @@ macro_rules! normalize_range_solver {
                 i += 1;
             }
             assert!(v[max_i] == 1.0, "maximum mapped to 1");
+            kani::cover!(s[0] == 3.0e38 && s[$n - 1] == -3.0e38, "f32 range overflow case");
         }
     };
 }
-normalize_range_solver!(normalize_range_n2_kissat, 2, kissat);
-normalize_range_solver!(normalize_range_n2_z3, 2, z3);
+normalize_table!(normalize_table_n2, 2);
+normalize_table!(normalize_table_n3, 3);
